@@ -58,7 +58,8 @@ PROPERTY = "C16"
 RULE = ("case kinds: point (one geometry; CIS default start + random orthonormal starts, RPA default + random start, "
         "RPA<=CIS), window (CIS and RPA in an orbital window), seq (5-point geometry sequence on ONE Molecule object, amplitude "
         "reuse with make_best_guess / raw reuse / no reuse, each point also solved fresh), hbatch (same species, "
-        "different geometries, vs alone), mbatch (different molecules padded into one batch -> rcis_any_batch, vs alone). "
+        "different geometries, vs alone), ubatch (3-4 geometries of one molecule, near-equilibrium + strongly distorted + "
+        "stretched, n_states 1-3, EVERY batch order, each member vs dense and vs alone), mbatch (different molecules padded into one batch -> rcis_any_batch, vs alone). "
         "Every finished solve is judged against the dense A/B built from its own returned orbitals.  A case is "
         "non-trivial when at least one judged solve had more singles than requested roots and the Davidson loop "
         "needed >= 2 sigma builds; distinct by SHA-1 of the case")
@@ -76,7 +77,7 @@ ASSUMPTIONS = [
 ]
 REQUIRED_MONITORS = ["roots_checked", "rpa_roots_checked", "degenerate_roots_checked", "sigma_crosschecks",
                      "random_start_solves", "reuse_solves", "mixed_batch_mols_judged", "homo_batch_mols_judged",
-                     "window_solves", "iterative_solves"]
+                     "window_solves", "iterative_solves", "uneven_rpa_batch_orders", "uneven_cis_batch_orders"]
 CASE_TIMEOUT = 900.0
 MIN_NONTRIVIAL = 8
 BUDGET_S = {"quick": 200, "thorough": 1700}
@@ -259,14 +260,14 @@ def gen_cases(tier, seed):
     big = [n for n in pool if _dims(n)[0] * _dims(n)[1] >= 60]
     sym = [n for n in SYMMETRIC + EXTRA_SYM if n in pool]
     if tier == "quick":
-        n_point, n_window, n_seq, n_hb, n_mb = 26, 10, 12, 8, 8
+        n_point, n_window, n_seq, n_hb, n_mb, n_ub = 26, 10, 12, 8, 8, 8
         nstart = 2
         # quick tier: no single case above ~40 s -- cubane (nov 400) only in the thorough tier, sequences on nov <= 100
         pool = [n for n in pool if _dims(n)[0] * _dims(n)[1] <= 310]
         big = [n for n in big if n in pool]
         sym = [n for n in sym if n in pool]
     else:
-        n_point, n_window, n_seq, n_hb, n_mb = 420, 160, 170, 110, 110
+        n_point, n_window, n_seq, n_hb, n_mb, n_ub = 420, 160, 170, 110, 110, 140
         nstart = 3
     cases = []
 
@@ -313,6 +314,38 @@ def gen_cases(tier, seed):
             geoms.append(dict(geoms[0]))  # an exact duplicate geometry inside the batch
         cases.append({"kind": "hbatch", "mol": name, "method": method, "xm": "rpa" if i % 4 == 3 else "cis",
                       "n_states": _nstates(g, no * nv), "tol": float(_pick(g, TOLS)), "geoms": geoms})
+    # ---- homogeneous batches with deliberately UNEVEN convergence, every batch order (members leave the Davidson loop in
+    #      different iterations and with different subspace sizes: the per-molecule bookkeeping -- done masks, zero_pad
+    #      offsets, active-index vs molecule-index -- is only exercised then)
+    ub_pool = [n for n in ("CH2O", "NH3", "HCN", "CH3OH", "HCOOH", "C2H4", "CH3F", "HNO", "CH4", "C2H6", "SO2", "CO2",
+                           "CH3NH2", "HOOH", "C2H2", "N2O", "CH3Cl") + (("C3H8", "C4H6", "C3H4", "C3H6c") if tier != "quick" else ())
+               if n in pool and (tier != "quick" or _dims(n)[0] * _dims(n)[1] <= 36)]
+    for i in range(n_ub):
+        name = "CH2O" if i < 2 else _pick(g, ub_pool)
+        no, nv = _dims(name)
+        method = _pick(g, _methods_for(name))
+        nb = 3 if (tier == "quick" or g.random() < 0.6) else 4
+        geoms = []
+        for k in range(nb):
+            # one exactly symmetric member (its Davidson run finishes early: symmetry-pure start vectors), the others
+            # strongly distorted / stretched / near equilibrium
+            style = ["sym", "far", _pick(g, ["stretched", "near"]), "near"][k]
+            if style == "sym":
+                sp = {"mol": name, "mode": "sym", "seed": int(g.integers(0, 2**31)), "rot": "haar"}
+            else:
+                sp = {"mol": name, "mode": "distort", "seed": int(g.integers(0, 2**31)), "rot": "haar",
+                      "sigma": 0.01 if style == "near" else float(_pick(g, [0.12, 0.15]))}
+            if style == "stretched":
+                f = float(_pick(g, [0.88, 1.15, 1.25]))
+                sp["scale"] = [f, f, f]
+            geoms.append(sp)
+        if nb == 3:
+            orders = [[0, 1, 2], [0, 2, 1], [1, 0, 2], [1, 2, 0], [2, 0, 1], [2, 1, 0]]
+        else:
+            orders = [[int(x) for x in g.permutation(nb)] for _ in range(6)]
+        cases.append({"kind": "ubatch", "mol": name, "method": method, "xm": "rpa" if i % 2 == 0 else "cis",
+                      "n_states": int(g.integers(1, min(3, no * nv) + 1)), "tol": float(_pick(g, [1e-6, 1e-7, 1e-8])),
+                      "geoms": geoms, "orders": orders})
     # ---- mixed batches (rcis_any_batch)
     for i in range(n_mb):
         method = _pick(g, METHODS)
@@ -361,6 +394,7 @@ def gen_cases(tier, seed):
                 nov = c["window"][0] * c["window"][1]
             nsolve = {"seq": 5 + 5 * len(c.get("modes", [1, 2, 3])), "hbatch": 2 * len(c.get("geoms", [])),
                       "mbatch": 2 * len(c.get("geoms", [])), "point": 3 + 2 * len(c.get("starts", [])),
+                      "ubatch": len(c.get("geoms", [])) * (1 + len(c.get("orders", []))),
                       "window": 2 + len(c.get("starts", []))}[c["kind"]]
             return nsolve * (1.0 + (nov / 60.0) ** 2)
         order = sorted(range(len(cases)), key=lambda i: (-cost(cases[i]), i))
@@ -592,7 +626,10 @@ def _call(es, mol, **kw):
         lastcalls = [c for c in calls if c[0] == last]
         stag[b] = {"exit": sum(c[2] for c in lastcalls) == 0, "offered": sum(c[1] for c in lastcalls),
                    "discarded_total": sum(c[1] - c[2] for c in calls)}
+    # Davidson iteration in which molecule b left the loop (1 + iteration of its last correction step)
+    last_iter = {b: calls[-1][0] + (0 if stag[b]["exit"] else 1) for b, calls in _H["ortho"].items()}
     return {"raised": None, "iters": _H["sigma_calls"], "vecs": _H["sigma_vecs"], "stagnation": stag,
+            "last_iter": last_iter,
             "scf_bad": [bool(x) for x in nc.reshape(-1).tolist()] if nc is not None else None,
             "path": path[0] if len(path) == 1 else ",".join(path)}
 
@@ -1263,6 +1300,63 @@ def _hbatch(case, acc):
     return _finish(acc, obs)
 
 
+def _ubatch(case, acc):
+    """homogeneous batch with uneven convergence, every order of the members"""
+    xm, n_req, tol, method = case["xm"], case["n_states"], case["tol"], case["method"]
+    solver = "rpa" if xm == "rpa" else "rcis-batch"
+    gs = [geometry(sp) for sp in case["geoms"]]
+    Z, q, m = gs[0][0], gs[0][2], gs[0][3]
+    nb = len(gs)
+    sett = _settings(method, xm, n_req, tol)
+    obs = {"species": Z, "xm": xm, "orders": {}, "alone": []}
+    alone = []
+    for k in range(nb):
+        mol1, es1, info1 = _fresh(Z, gs[k][1], sett, q, m)
+        rec = None
+        if info1["raised"]:
+            _note_raise(acc, info1, "%s-alone" % xm)
+        elif _scf_ok(info1):
+            rec = _judge(acc, mol1, 0, {"xm": xm, "tol": tol, "n_req": n_req, "solver": solver, "start": "default-guess",
+                                        "label": "geometry %d alone" % k, "iters": info1["iters"],
+                                        "stag": info1["stagnation"]}, {}, do_sigma=(k == 0))
+        alone.append(rec)
+        obs["alone"].append(rec["E"][:n_req].tolist() if rec else None)
+    all_alone_fine = all(r is not None and r.get("ok") for r in alone)
+    for order in case["orders"]:
+        tag = "".join(str(k) for k in order)
+        mol, es, info = _fresh([Z] * nb, [gs[k][1] for k in order], sett, [q] * nb if q else 0, m)
+        if info["raised"]:
+            _note_raise(acc, info, "%s-ubatch" % xm)
+            if all_alone_fine:
+                # every member solves alone, the batch does not: the outcome depends on batch composition / order
+                acc.v("batch-only-solver-failure", "batch-only-solver-failure-%s" % solver, order=order,
+                      message=info["raised"], alone=obs["alone"], n_states=n_req, tol=tol)
+            continue
+        li = info.get("last_iter") or {}
+        finish = [li.get(p, 1) for p in range(nb)]
+        uneven = len(set(finish)) > 1
+        acc.m("batch_orders_run")
+        if uneven:
+            acc.m("uneven_%s_batch_orders" % ("rpa" if xm == "rpa" else "cis"))
+            acc.cells.append("ubatch/%s/uneven-finish" % solver)
+        obs["orders"][tag] = {"finish_iteration": finish,
+                              "E": mol.cis_energies.detach().cpu().numpy()[:, :n_req].tolist()}
+        cache = {}
+        for p, k in enumerate(order):
+            if not _scf_ok(info, p):
+                acc.m("scf_not_converged")
+                continue
+            rec = _judge(acc, mol, p, {"xm": xm, "tol": tol, "n_req": n_req, "solver": solver, "start": "default-guess",
+                                       "label": "geometry %d at position %d of batch order %s (finish iterations %s)" % (
+                                           k, p, tag, finish),
+                                       "iters": info["iters"], "stag": info["stagnation"]}, cache, do_sigma=(p == 0))
+            acc.m("homo_batch_mols_judged")
+            if alone[k] is not None:
+                _compare_runs(acc, alone[k], rec, tol, tol, n_req, rec["ref"]["nov"], "uneven-batch-vs-alone",
+                              "batch-dependent-%s" % solver)
+    return _finish(acc, obs)
+
+
 def _mbatch(case, acc):
     n_req, tol, method = case["n_states"], case["tol"], case["method"]
     gs = [geometry(s) for s in case["geoms"]]
@@ -1311,6 +1405,8 @@ def run_case(case):
         return _seq(case, acc)
     if kind == "hbatch":
         return _hbatch(case, acc)
+    if kind == "ubatch":
+        return _ubatch(case, acc)
     if kind == "mbatch":
         return _mbatch(case, acc)
     raise ValueError("unknown case kind %r" % kind)
